@@ -42,9 +42,12 @@ CorrSet(kind) ==
     [] OTHER            -> {Nth(SinglesOf(kind), theme), Nth(SinglesOf(kind), theme + 5), Nth(DoublesOf(kind), theme)}
 
 H(a, r) == hist' = Append(hist, [act |-> a, args |-> r])
-EvArgs(v, m, t, of, k, corr, st, n) == [v |-> v, m |-> m, t |-> t, of |-> of, k |-> k, corr |-> corr, st |-> st, n |-> n]
-NoP == [t |-> "", of |-> 0, k |-> 0, corr |-> "", st |-> "", n |-> 0]
-Ph0(r) == [r |-> r, s |-> 0, m |-> 0, v |-> 0, c |-> 0, p |-> NoP]
+EvArgs(v, m, p) == [v |-> v, m |-> m, t |-> p.t, of |-> p.of, k |-> p.k, corr |-> p.corr, st |-> p.st, n |-> p.n, rg |-> p.rg]
+P(t, of, k, corr, st, n) == [t |-> t, of |-> of, k |-> k, corr |-> corr, st |-> st, n |-> n, rg |-> 1]
+NoP == [t |-> "", of |-> 0, k |-> 0, corr |-> "", st |-> "", n |-> 0, rg |-> 0]
+\* done: validators that submitted on message m in this round; sc/q: running split-vote script and its variant;
+\* ord: submission order (the model state has none, the real queue does: it is part of the view)
+Ph0(r) == [r |-> r, s |-> 0, m |-> 0, v |-> 0, c |-> 0, p |-> NoP, done |-> {}, sc |-> <<>>, q |-> NoP, ord |-> <<>>]
 Ofs == DOMAIN msgs \cup {key[1] : key \in DOMAIN txs}
 
 GInit == \E w \in Worlds, th \in (IF CorrMode = "theme" THEN 1..12 ELSE {1}) :
@@ -60,42 +63,74 @@ GSign == \E v \in Signers, m \in DOMAIN msgs \cup {nextId} :
 Menu(m) ==
   LET kind == msgs[m].kind
       ks == IF IsUsc(kind) THEN {1} ELSE 0..Len(msgs[m].sigs) IN
-     {[t |-> "tx", of |-> m, k |-> k, corr |-> "none", st |-> "ok", n |-> 1] : k \in ks}
-  \cup {[t |-> "tx", of |-> m, k |-> 1, corr |-> "none", st |-> "fail", n |-> 1],
-        [t |-> "tx", of |-> m, k |-> 1, corr |-> "none", st |-> "ok", n |-> 2],
-        [t |-> "err", of |-> m, k |-> 1, corr |-> "none", st |-> "ok", n |-> 1]}
-  \cup {[t |-> "tx", of |-> m, k |-> 1, corr |-> c, st |-> "ok", n |-> 1] : c \in CorrSet(kind)}
-  \cup {[t |-> "tx", of |-> of, k |-> 1, corr |-> "none", st |-> "ok", n |-> 1] : of \in Ofs \ {m}}
+     {P("tx", m, k, "none", "ok", 1) : k \in ks}
+  \cup {P("tx", m, 1, "none", "fail", 1), P("tx", m, 1, "none", "ok", 2), P("err", m, 1, "none", "ok", 1)}
+  \cup {P("tx", m, 1, c, "ok", 1) : c \in CorrSet(kind)}
+  \cup {P("tx", of, 1, "none", "ok", 1) : of \in Ofs \ {m}}
+\* evidence that differs from p in exactly one component: receipt status, rest of the receipt, transaction
+\* instance (another transaction with the same call data), signature prefix, or an error proof instead
+Variants(m, p) ==
+  IF p.t # "tx" THEN {} ELSE
+     {[p EXCEPT !.st = IF @ = "ok" THEN "fail" ELSE "ok"], [p EXCEPT !.rg = 3 - @], [p EXCEPT !.n = 3 - @], P("err", m, 1, "none", "ok", 1)}
+  \cup (IF p.of = m /\ ~IsUsc(msgs[m].kind) /\ p.corr = "none" /\ Len(msgs[m].sigs) >= 2 THEN {[p EXCEPT !.k = 3 - @]} ELSE {})
 \* what the validators after the first one may do
 Follow(m) == {ph.p, [ph.p EXCEPT !.st = IF @ = "ok" THEN "fail" ELSE "ok"]}
-              \cup (IF SignOrdered THEN {} ELSE {[t |-> "tx", of |-> m, k |-> 1, corr |-> "none", st |-> "ok", n |-> 1]})
+              \cup (IF SignOrdered THEN {} ELSE {P("tx", m, 1, "none", "ok", 1)} \cup Variants(m, ph.p))
 
 \* basic transactions get every vote pattern, the rest of the menu gets the exactly-2/3 pattern (lean mode)
-Basic(m) == {[t |-> "tx", of |-> m, k |-> 1, corr |-> "none", st |-> "ok", n |-> 1]}
-            \cup {[t |-> "tx", of |-> m, k |-> 1, corr |-> c, st |-> "ok", n |-> 1] : c \in {Nth(SinglesOf(msgs[m].kind), 1)}}
+Basic(m) == {P("tx", m, 1, "none", "ok", 1)}
+            \cup {P("tx", m, 1, c, "ok", 1) : c \in {Nth(SinglesOf(msgs[m].kind), 1)}}
 GEvidence == \E m \in DOMAIN msgs, v \in Vals :
-  /\ ph.s <= 2 /\ (ph.s = 2 => (m > ph.m \/ (m = ph.m /\ v > ph.v)))
+  /\ ph.sc = <<>>
+  /\ ph.s <= 2 /\ (ph.s = 2 => (m > ph.m \/ (m = ph.m /\ (IF Lean THEN v > ph.v ELSE v \notin ph.done))))
   /\ (~(ph.s = 2 /\ m = ph.m) => v \in FirstVals)
   /\ (Lean /\ ph.s = 2 => m = ph.m /\ ph.c < 3)
   /\ \E p \in (IF ph.s = 2 /\ m = ph.m THEN {q \in Follow(m) : q.t # ""} ELSE Menu(m)) :
        /\ (p.t = "tx" => CanBuild(p.of, p.k, p.corr))
        /\ (Lean /\ ph.s < 2 /\ p \notin Basic(m) => v = 1)
        /\ (Lean /\ ph.s = 2 /\ ph.p \notin Basic(m) => v = 2 /\ ph.c = 1 /\ p = ph.p)
-       /\ Evidence(v, m, p.t, p.of, p.k, p.corr, p.st, p.n)
-       /\ H("Evidence", EvArgs(v, m, p.t, p.of, p.k, p.corr, p.st, p.n))
-       /\ ph' = [ph EXCEPT !.s = 2, !.m = m, !.v = v, !.c = IF ph.s = 2 /\ m = ph.m THEN @ + 1 ELSE 1, !.p = IF ph.s = 2 /\ m = ph.m THEN @ ELSE p]
+       /\ Evidence(v, m, p.t, p.of, p.k, p.corr, p.st, p.n, p.rg)
+       /\ H("Evidence", EvArgs(v, m, p))
+       /\ ph' = [ph EXCEPT !.s = 2, !.m = m, !.v = v, !.c = IF ph.s = 2 /\ m = ph.m THEN @ + 1 ELSE 1, !.p = IF ph.s = 2 /\ m = ph.m THEN @ ELSE p,
+                           !.done = IF ph.s = 2 /\ m = ph.m THEN @ \cup {v} ELSE {v},
+                           !.ord = IF ph.s = 2 /\ m = ph.m THEN Append(@, v) ELSE <<v>>]
   /\ UNCHANGED theme
+
+\* Split votes: the validators report the SAME transaction, a minority with evidence that differs in exactly one
+\* component ("v"), the others with the base evidence ("b"); every submission order that matters: the minority
+\* first, last, in the middle, a two-validator minority first / last, and the heavy validator as the deviating one.
+\* Shares 3:1:1:1 -> {1,2} is exactly 2/3.  The order is free here (the queue keeps evidence in submission order and
+\* the tally hands the attester the first member of the winning group).
+Scripts == { <<<<4, "v">>, <<1, "b">>, <<2, "b">>>>,  <<<<1, "b">>, <<2, "b">>, <<4, "v">>>>,  <<<<1, "b">>, <<4, "v">>, <<2, "b">>>>,
+             <<<<3, "v">>, <<4, "v">>, <<1, "b">>, <<2, "b">>>>,  <<<<2, "b">>, <<1, "b">>, <<4, "v">>, <<3, "v">>>>,
+             <<<<2, "v">>, <<1, "b">>, <<3, "b">>, <<4, "b">>>>,  <<<<1, "v">>, <<2, "b">>, <<3, "b">>, <<4, "b">>>> }
+SplitBases(m) == {P("tx", m, 1, "none", "ok", 1), P("tx", m, 1, "none", "fail", 1)}
+ScriptStep(m, sc, b, q) ==
+  LET v == sc[1][1]  p == IF sc[1][2] = "b" THEN b ELSE q IN
+  /\ Evidence(v, m, p.t, p.of, p.k, p.corr, p.st, p.n, p.rg)
+  /\ H("Evidence", EvArgs(v, m, p))
+  /\ ph' = [ph EXCEPT !.s = 2, !.m = m, !.v = 4, !.c = 4, !.p = b, !.q = q, !.sc = Tail(sc), !.done = Vals, !.ord = Append(@, v)]
+GSplit ==
+  /\ UNCHANGED theme
+  /\ \/ /\ ph.sc = <<>> /\ ph.s <= 1
+        /\ \E m \in DOMAIN msgs, sc \in Scripts : \E b \in SplitBases(m) : \E q \in Variants(m, b) :
+             /\ CanBuild(m, 1, "none")
+             /\ (Lean => Len(msgs[m].sigs) = (IF IsUsc(msgs[m].kind) THEN 0 ELSE 1))
+             /\ (q.t = "tx" => CanBuild(q.of, q.k, q.corr))
+             /\ ScriptStep(m, sc, b, q)
+     \/ /\ ph.sc # <<>> /\ ph.m \in DOMAIN msgs
+        /\ ScriptStep(ph.m, ph.sc, ph.p, ph.q)
 
 \* rejected submissions: message that is not queued / transaction that cannot exist
 GEvidenceBad ==
   /\ ph.s <= 1 /\ ph.r = 1
-  /\ \/ \E of \in Ofs : Evidence(1, nextId, "tx", of, 1, "none", "ok", 1) /\ H("Evidence", EvArgs(1, nextId, "tx", of, 1, "none", "ok", 1))
-     \/ \E m \in DOMAIN msgs : Evidence(1, m, "tx", nextId, 1, "none", "ok", 1) /\ H("Evidence", EvArgs(1, m, "tx", nextId, 1, "none", "ok", 1))
+  /\ \/ \E of \in Ofs : Evidence(1, nextId, "tx", of, 1, "none", "ok", 1, 1) /\ H("Evidence", EvArgs(1, nextId, P("tx", of, 1, "none", "ok", 1)))
+     \/ \E m \in DOMAIN msgs : Evidence(1, m, "tx", nextId, 1, "none", "ok", 1, 1) /\ H("Evidence", EvArgs(1, m, P("tx", nextId, 1, "none", "ok", 1)))
   /\ ph' = [ph EXCEPT !.s = 1] /\ UNCHANGED theme
 
-GEndBlock == ph.r <= MaxRounds /\ EndBlock /\ H("EndBlock", [x |-> 0]) /\ ph' = Ph0(ph.r + 1) /\ UNCHANGED theme
+GEndBlock == ph.sc = <<>> /\ ph.r <= MaxRounds /\ EndBlock /\ H("EndBlock", [x |-> 0]) /\ ph' = Ph0(ph.r + 1) /\ UNCHANGED theme
 
-GNext == ph.r <= MaxRounds /\ (GEnqueue \/ GSign \/ GEvidence \/ GEvidenceBad \/ GEndBlock)
+GNext == ph.r <= MaxRounds /\ (GEnqueue \/ GSign \/ GEvidence \/ GSplit \/ GEvidenceBad \/ GEndBlock)
 
 Last == hist[Len(hist)]
 \* the incoming action is part of the view, so that rejected / no-op steps get a history of their own
